@@ -79,7 +79,7 @@ Proof.
   { destruct en; cbn [andb] in G; [apply Nat.leb_gt in G; lia|]. rewrite (Hen5 eq_refl). lia. }
   rewrite from_ok by exact Hle. cbn [bind].
   assert (Hfin : forall (s1 : rtsp_st) h p2, exists s' n,
-             (let* n := video_payloads h p2 in Ok (s1, n)) = Ok (s', n) /\ rs_cache s' = rs_cache s1).
+             (let* n := video_payloads h p2 in Ok (s1, map (pair true) n)) = Ok (s', n) /\ rs_cache s' = rs_cache s1).
   { intros s1 h p2. destruct (video_payloads_ok h p2) as [n ->]. cbn [bind]. do 2 eexists; split; reflexivity. }
   destruct add; [|cbn [bind]; exact (Hfin _ _ _)].
   rewrite FA. destruct (Nat.leb _ 4); [cbn [bind]; exact (Hfin _ _ _)|].
